@@ -93,26 +93,40 @@ __CPROVER_ensures((g_cand >= pos && g_cand <= s->size && n <= s->size - g_cand &
                   ==> (g_wit < n && s->data[g_cand + g_wit] != p[g_wit]))
 __CPROVER_assigns(g_wit);
 
-/* s.find_first_not_of(set) / s.find_last_not_of(set) for a set given as a membership macro instantiated below */
+/* s.find_first_not_of(set) / s.find_last_not_of(set) with the set given as a C string of at most 4 characters
+ * (membership spelled out; a NUL byte is never a member of a C-string set), and find_last_not_of(ch)  [string.find.last.not.of] */
 #define C8_WS(c) ((c) == ' ' || (c) == '\t' || (c) == '\r' || (c) == '\n')
+#define C8_SETLEN_OK(t) ((t)[0] == 0 || (t)[1] == 0 || (t)[2] == 0 || (t)[3] == 0 || (t)[4] == 0)
+#define C8_INSET(c, t) ((t)[0] != 0 && ((c) == (t)[0] || ((t)[1] != 0 && ((c) == (t)[1] || ((t)[2] != 0 && ((c) == (t)[2] || ((t)[3] != 0 && (c) == (t)[3])))))))
 
-size_t c8_find_first_not_ws(const vstr* s)
-__CPROVER_ensures(__CPROVER_return_value == C8_NPOS || __CPROVER_return_value < s->size)
-__CPROVER_ensures(__CPROVER_return_value != C8_NPOS ==> !C8_WS(s->data[__CPROVER_return_value]))
-__CPROVER_ensures((g_sk < s->size && (__CPROVER_return_value == C8_NPOS || g_sk < __CPROVER_return_value)) ==> C8_WS(s->data[g_sk]))
-__CPROVER_assigns();
+/* The "every byte before / after the result is in the set" universal is stated at several instances: the ghost index g_sk, the
+ * first and the last byte, and g_inst = the index returned by the previous find_*_not_* call (so that two consecutive searches on
+ * the same string are related: first_not_of(s) <= last_not_of(s)); every instance is a consequence of the same universal. */
+extern size_t g_inst;
+#define C8_FNO_ENSURES(MEMBER, BEYOND) \
+__CPROVER_ensures(__CPROVER_return_value == C8_NPOS || __CPROVER_return_value < s->size) \
+__CPROVER_ensures(__CPROVER_return_value != C8_NPOS ==> !MEMBER(s->data[__CPROVER_return_value])) \
+__CPROVER_ensures((g_sk < s->size && (__CPROVER_return_value == C8_NPOS || BEYOND(g_sk, __CPROVER_return_value))) ==> MEMBER(s->data[g_sk])) \
+__CPROVER_ensures((0 < s->size && (__CPROVER_return_value == C8_NPOS || BEYOND(0, __CPROVER_return_value))) ==> MEMBER(s->data[0])) \
+__CPROVER_ensures((0 < s->size && (__CPROVER_return_value == C8_NPOS || BEYOND(s->size - 1, __CPROVER_return_value))) ==> MEMBER(s->data[s->size - 1])) \
+__CPROVER_ensures((__CPROVER_old(g_inst) < s->size && (__CPROVER_return_value == C8_NPOS || BEYOND(__CPROVER_old(g_inst), __CPROVER_return_value))) ==> MEMBER(s->data[__CPROVER_old(g_inst)])) \
+__CPROVER_ensures(g_inst == __CPROVER_return_value) \
+__CPROVER_assigns(g_inst)
+#define C8_BEFORE(k, r) ((k) < (r))
+#define C8_AFTER(k, r) ((k) > (r))
 
-size_t c8_find_last_not_ws(const vstr* s)
-__CPROVER_ensures(__CPROVER_return_value == C8_NPOS || __CPROVER_return_value < s->size)
-__CPROVER_ensures(__CPROVER_return_value != C8_NPOS ==> !C8_WS(s->data[__CPROVER_return_value]))
-__CPROVER_ensures((g_sk < s->size && (__CPROVER_return_value == C8_NPOS || g_sk > __CPROVER_return_value)) ==> C8_WS(s->data[g_sk]))
-__CPROVER_assigns();
+#define C8_M_SET(c) C8_INSET(c, set)
+size_t c8_find_first_not_of(const vstr* s, const char* set)
+__CPROVER_requires(__CPROVER_r_ok(set, 5) && C8_SETLEN_OK(set))
+C8_FNO_ENSURES(C8_M_SET, C8_BEFORE);
 
+size_t c8_find_last_not_of(const vstr* s, const char* set)
+__CPROVER_requires(__CPROVER_r_ok(set, 5) && C8_SETLEN_OK(set))
+C8_FNO_ENSURES(C8_M_SET, C8_AFTER);
+
+#define C8_M_CH(c) ((c) == ch)
 size_t c8_find_last_not_ch(const vstr* s, char ch)
-__CPROVER_ensures(__CPROVER_return_value == C8_NPOS || __CPROVER_return_value < s->size)
-__CPROVER_ensures(__CPROVER_return_value != C8_NPOS ==> s->data[__CPROVER_return_value] != ch)
-__CPROVER_ensures((g_sk < s->size && (__CPROVER_return_value == C8_NPOS || g_sk > __CPROVER_return_value)) ==> s->data[g_sk] == ch)
-__CPROVER_assigns();
+C8_FNO_ENSURES(C8_M_CH, C8_AFTER);
 
 /* s.compare(pos, len, str): [string.compare] throws out_of_range if pos > size(); compares s[pos, pos + rlen), rlen = min(len, size() - pos),
  * with str; 0 iff equal length and equal bytes.  Inequality is witnessed by g_wit (first differing index) chosen by the stub. */
@@ -123,7 +137,18 @@ __CPROVER_ensures(__CPROVER_return_value == 0 ==> (C8_RLEN(s, pos, len) == str->
 __CPROVER_ensures((__CPROVER_return_value != 0 && C8_RLEN(s, pos, len) == str->size) ==> (g_wit < str->size && s->data[pos + g_wit] != str->data[g_wit]))
 __CPROVER_assigns(g_wit);
 
-/*SUBSTR_SELF*/
+/* s = s.substr(pos, n) (a string replaced by its own infix): throws out_of_range if pos > size; the new size is
+ * rlen = min(n, size - pos) and new byte k is old byte pos + k.  Modelled exactly as a change of view: the data pointer moves
+ * forward by pos (no byte is copied or havocked).  g_shift records how many leading bytes were dropped. */
+extern char g_sval;
+extern size_t g_shift;
+static inline void c8_assign_substr_self(vstr* s, size_t pos, size_t n)
+{
+  if (pos > s->size) { verif_exc = EXC_out_of_range; return; }
+  size_t verif_len = n < s->size - pos ? n : s->size - pos;
+  s->data += pos; s->cap -= pos; s->size = verif_len;
+  g_shift = pos;
+}
 
 /* ---- libc ---------------------------------------------------------------------------------------------------------------- */
 /* toupper / tolower in the "C" locale (ISO C 7.4.2): only a-z / A-Z are mapped.  glibc accepts -128..255 (plain char
